@@ -1276,11 +1276,54 @@ def search(ctx: Ctx) -> None:
                 break
     finally:
         shutil.rmtree(tmp, ignore_errors=True)
+        if _DYN.get('dir'):
+            shutil.rmtree(_DYN['dir'], ignore_errors=True)
+            _DYN.clear()
+
+
+def replay_corpus_history(case: dict) -> int:
+    """a storage history on a corpus / family schema as it stands (no re-arrangement)"""
+    tmp = tempfile.mkdtemp(prefix='c09-r-')
+    try:
+        rel = case['corpus']
+        fam = {('header-family: ' + n): (x, d) for n, x, d in HEADER_FAMILY}
+        fam.update({('registry-family: ' + n): (x, d) for n, x, d, _ in REGISTRY_FAMILY})
+        if rel in fam:
+            main = os.path.join(tmp, 'main.xsd')
+            with open(main, 'w') as f:
+                f.write(fam[rel][0])
+            probes = []
+            for j, x in enumerate(fam[rel][1]):
+                probes.append(os.path.join(tmp, f'probe{j}.xml'))
+                with open(probes[-1], 'w') as f:
+                    f.write(x)
+        else:
+            main = str(REPO / 'tests' / 'test_cases' / rel)
+            probes = [str(Path(main).parent / os.path.basename(x)) for x in case.get('probe_files', [])]
+        schema, _ = build_any(main)
+        o0 = observe(schema, probes)
+        s2 = schema
+        for name in case.get('history') or [case['storage']]:
+            try:
+                s2, kind = OPS[name](schema, {})
+            except Exception as e:   # noqa
+                print(f'storage operation {name} fails: {type(e).__name__}: {str(e)[:300]}')
+                return 1
+            if kind == 'rebuild':
+                schema = s2
+        d = diff_obs(o0, observe(schema if case['storage'] == '(original)' else s2, probes))
+        print('history applied:', case.get('history'))
+        print('REAL CODE, schema as built vs after the history:', 'SAME' if d is None else json.dumps(d, indent=1)[:3000])
+        return 1 if d is not None else 0
+    finally:
+        shutil.rmtree(tmp, ignore_errors=True)
 
 
 def replay(ctx: Ctx, obj: dict) -> int:
     print(json.dumps({k: v for k, v in obj.items() if k != 'input'}, indent=1)[:3000])
     case = obj.get('input') or {}
+    if 'corpus' in case and case.get('storage'):
+        return replay_corpus_history(case)
     if 'files' not in case or 'base_files' not in case or not case['base_files']:
         print('nothing to replay on the real code (broken obligation, see "broken")')
         return 0
@@ -1334,3 +1377,6 @@ def replay(ctx: Ctx, obj: dict) -> int:
         return 1 if d is not None else 0
     finally:
         shutil.rmtree(tmp, ignore_errors=True)
+        if _DYN.get('dir'):
+            shutil.rmtree(_DYN['dir'], ignore_errors=True)
+            _DYN.clear()
